@@ -25,7 +25,7 @@ def generate(tier, rng):
     regs = [(a, b) for a in range(0, 9) for b in range(0, 9)]
     combos = list(itertools.product(range(len(small)), regs, tierops.ERASE, (True, False)))
     if tier == "quick":
-        combos = rng.sample(combos, 3500)
+        combos = rng.sample(combos, min(len(combos), 3500))
     for ti, (a, b), m, sh in combos:
         cases.append({"op": "erase", "tier": small[ti], "args": {"a": a, "b": b, "mode": m, "shrink": sh},
                       "scale": ["dyadic", rng.choice([0, 3])]})
